@@ -116,8 +116,20 @@ import importlib
 m = importlib.import_module({harness!r})
 CALL = {call!r}
 print("REPLAY call:", CALL)
+PATCH = None
+if " with crosshair.patch_to_return(" in CALL:
+    # CrossHair pinned the return values of nondeterministic functions (time.time, ...) on this path
+    CALL, PATCH = CALL.split(" with ", 1)
+class _NS(dict):
+    def __missing__(self, k):
+        return importlib.import_module(k)
 try:
-    r = eval(CALL, vars(m))
+    if PATCH:
+        import crosshair
+        with eval(PATCH, _NS(crosshair=crosshair)):
+            r = eval(CALL, vars(m))
+    else:
+        r = eval(CALL, vars(m))
 except AssumeFailed:
     print("REPLAY: input does not satisfy an in-body assumption"); sys.exit(4)
 except HarnessError as e:
@@ -149,6 +161,7 @@ def classify(mod, fn_name, call):
     try:
         ns = dict(vars(mod))
         ns["__cap"] = f
+        call = call.split(" with crosshair.patch_to_return(")[0]
         return str(eval("__cap" + call[call.index("("):], ns))
     except Exception as e:  # classification failure is not a property result
         return "unclassified(%s)" % (e,)
